@@ -136,7 +136,7 @@ Theorem C04_projected_row_passes_checker : forall (A : Type) gfs outs (t : list 
 Proof. exact @project_passes_checker. Qed.
 Print Assumptions C04_projected_row_passes_checker.
 
-(* the last condition is needed and NOT checked by the code (finding F-C04-alias-clash in known_findings.d/C04.jsonl): with an alias that is the
+(* the last condition is needed and NOT checked by the code (finding F61 in known_findings.d/C04.jsonl): with an alias that is the
    GROUP BY text of another column (SELECT k1 AS k2, k2 AS z .. GROUP BY k1, k2) the emitted row is
    {z: v2}: the first grouping value is lost, its column missing *)
 Theorem C04_alias_onto_group_column_refuted :
